@@ -19,24 +19,18 @@ Lemma binop_casts_fact : binop_casts_subint = true.
 Proof. reflexivity. Qed.
 Lemma tdiv_casts_fact : tdiv_mixed_casts_back = true.
 Proof. reflexivity. Qed.
+(* 3d9c769: the constant-count `<<` fast path casts an unsigned result narrower than int *)
+Lemma shl_fast_casts_fact : shl_fast_casts_unsigned_subint = true.
+Proof. reflexivity. Qed.
 
-(* witnesses of the defects repaired by 1d3f0fa / 8eb30df *)
+(* witnesses of the defects repaired by 1d3f0fa / 8eb30df / 3d9c769 *)
 Lemma nested_repaired_witnesses :
+  rt_nested_l Bshl Bgt U8 I64 U8 200 1 255 true = Rbool false /\ rt_stored_l Bshl Bgt U8 I64 U8 200 1 255 true = Rbool false /\
+  rt_nested_l Bshl Bidiv U8 I64 U8 200 1 2 true = Rval U8 72 /\ rt_stored_l Bshl Bidiv U8 I64 U8 200 1 2 true = Rval U8 72 /\
   rt_nested_l Btdiv Bgt I8 U8 I8 (-128) 255 0 false = Rbool false /\ rt_stored_l Btdiv Bgt I8 U8 I8 (-128) 255 0 false = Rbool false /\
   rt_nested_l Badd Bgt I8 I8 I8 127 1 0 false = Rbool false /\ rt_stored_l Badd Bgt I8 I8 I8 127 1 0 false = Rbool false /\
   rt_nested_l Badd Bidiv U8 U8 U8 200 100 2 false = Rval U8 22 /\ rt_stored_l Badd Bidiv U8 U8 U8 200 100 2 false = Rval U8 22.
 Proof. repeat split. Qed.
-
-(* still false: `l << k` with a compile-time count k on an unsigned operand narrower than int is the
-   bare C shift, computed in int: (uint8(200) << 1) > 255 is true nested, false stored *)
-Lemma rt_context_independent_refuted : shl_fast_casts_unsigned_subint = false -> ~ rt_context_independent.
-Proof.
-  intros F H. specialize (H Bshl Bgt U8 I64 U8 200 1 255 true).
-  unfold rt_nested_l, rt_stored_l, rt_bin_c, rt_bin_k, rt_shift_fast in H. cbn [fast_count sgn U8 andb negb] in H.
-  rewrite F in H. vm_compute in H.
-  assert (E : Rbool true = Rbool false) by (apply H; try reflexivity; split; congruence).
-  discriminate E.
-Qed.
 
 Lemma rt_bin_type o lt rt a b ti v : rt_bin o lt rt a b = Rval ti v -> ti = rt_type o lt rt.
 Proof.
@@ -265,21 +259,15 @@ Proof.
   rewrite c_conv_inrange by assumption. reflexivity.
 Qed.
 
-(* partial (today): everything except a compile-time count of `<<` on an unsigned operand narrower than int *)
-Lemma rt_context_independent_partial o1 o2 t1 t2 t3 a b c k1 : wf_ity t1 -> wf_ity t2 -> is_cmpop o1 = false ->
-  in_range t1 a -> ~ (k1 = true /\ o1 = Bshl /\ sgn t1 = false /\ bits t1 < 32) ->
-  rt_nested_l o1 o2 t1 t2 t3 a b c k1 = rt_stored_l o1 o2 t1 t2 t3 a b c k1.
-Proof.
-  intros H1 H2 Hc Ha Hn. apply nested_eq_gen; try assumption.
-  intros F -> S W. exfalso. apply Hn. repeat split; try assumption; try lia.
-  unfold fast_count in F. destruct k1; [reflexivity | discriminate F].
-Qed.
-
-(* conditional full statement: it becomes the obligation once the fast path casts (proposed repair 11) *)
+(* the full statement follows from the cast of the fast path ... *)
 Lemma rt_context_independent_if_cast : shl_fast_casts_unsigned_subint = true -> rt_context_independent.
 Proof.
   intros F o1 o2 t1 t2 t3 a b c k1 H1 H2 _ Hc Ha _ _. apply nested_eq_gen; try assumption. intros; exact F.
 Qed.
+
+(* ... which the emitter read on this run has (3d9c769): FULL strength, run-time and compile-time counts *)
+Lemma rt_context_independent_holds : rt_context_independent.
+Proof. exact (rt_context_independent_if_cast shl_fast_casts_fact). Qed.
 
 (* ---- the fast path of a compile-time count computes what the helper computes (so the theorems about
    rt_bin - modularity, fold = run time - speak about constant counts as well): exhaustively for the
